@@ -93,6 +93,7 @@ func runC02(c *Ctx) {
 	c.rule("copier-fresh", "in the pointer, map and slice handlers every return that has not installed freshly allocated storage (or a memo hit) into the output is explained by a nil input, an output that is already a different non-nil object, or an unsettable output; in the interface handler every reference-bearing payload kind is re-boxed from fresh storage", 4)
 	c.rule("copier-state-fresh", "the constructors of the copier and of the overlayer return a struct allocated by that call with freshly made memo maps (no pooling or sharing of memo state between copies)", 2)
 	c.rule("copier-elements-descend", "the array handler (also used for slice backing arrays) hands every element 0 <= z < Len to the dispatcher in a loop with no other exit, a return that skips the loop is only reachable for element kinds that cannot hold references, and the map handler's entry loop ends only on exhaustion", 2)
+	c.rule("fresh-out-per-descent", "(shared with C03) inside the copier's loops the temporary output location handed to a descent is allocated in the same iteration: the map memo stores output locations, and through a reused temporary the source's own inner map ends up in the copy", 1)
 
 	k := loadCore(c)
 	if !k.ok {
@@ -230,6 +231,7 @@ func runC02(c *Ctx) {
 
 	// ---- copier-all-exported ------------------------------------------------------------------------------
 	c02AllExported(c, cp, "copier-all-exported")
+	c03FreshOutPerDescent(c, cp, "fresh-out-per-descent")
 
 	// ---- copier-fresh ----------------------------------------------------------------------------------------
 	c02CopierFreshAll(c, cp)
@@ -690,35 +692,7 @@ func runC03(c *Ctx) {
 		c.ok("single-memo", "copier", cp.dispatch.Pos(), "no member of the recursive component creates a fresh copier")
 	}
 
-	// ---- fresh-out-per-descent ------------------------------------------------------------------------------
-	n := 0
-	for f := range cp.scc {
-		for _, i := range allInstrs(f) {
-			ci := isSCCCall(i)
-			if ci == nil || !inLoop(ci) {
-				continue
-			}
-			outArg := ci.Call.Args[2]
-			// only temporaries created with reflect.New matter (Index/Field of the real output are distinct per iteration by construction)
-			var newCall *ssa.Call
-			derivesAll(outArg, func(x ssa.Value) bool {
-				if cc, ok := x.(*ssa.Call); ok && calleeFullName(cc) == "reflect.New" {
-					newCall = cc
-					return true
-				}
-				return false
-			}, &flowOpts{through: map[string]bool{"(reflect.Value).Elem": true}})
-			if newCall == nil {
-				continue
-			}
-			n++
-			c.check(inLoop(newCall) && newCall.Block() == ci.Block() || newCall.Block().Dominates(ci.Block()) && inLoop(newCall), "fresh-out-per-descent", relName(f)+"#temp", ci.Pos(),
-				"the temporary output is allocated in the same iteration as the descent", "a temporary output location allocated outside the loop is reused across iterations (memo entries would point at a location that is overwritten)")
-		}
-	}
-	if n == 0 {
-		c.bad("fresh-out-per-descent", "copier", cp.hMap.Pos(), "no per-iteration temporaries found (map entries)")
-	}
+	c03FreshOutPerDescent(c, cp, "fresh-out-per-descent")
 	_ = token.ADD
 }
 
@@ -773,5 +747,50 @@ func c02AllExported(c *Ctx, cp *copier, rule string) {
 			}
 		}
 		c.check(len(ex) == 0, rule, relName(s)+"#loop#"+itoa(li+1), pos, "the field loop visits every field (no break, no return)", "the field loop of the struct handler can stop early (a return or break where a skipped field should only be skipped): every field after it keeps pointing into the input graph")
+	}
+}
+
+// c03FreshOutPerDescent (shared by C02 and C03): inside loops of the copier's recursive component, a temporary output
+// location handed to a descent is allocated in that very iteration. The map memo stores output *locations*; a
+// temporary hoisted out of the entry loop is overwritten by the next entry, so a shared inner map resolves to whatever
+// the scratch value holds - the source's own map ends up in the copy (isolation, C02) and identity is lost (C03).
+func c03FreshOutPerDescent(c *Ctx, cp *copier, rule string) {
+	isSCCCall := func(i ssa.Instruction) *ssa.Call {
+		ci, ok := i.(*ssa.Call)
+		if !ok {
+			return nil
+		}
+		if callee := staticCallee(ci); callee != nil && cp.scc[callee] && len(ci.Call.Args) == 3 {
+			return ci
+		}
+		return nil
+	}
+	n := 0
+	for f := range cp.scc {
+		for _, i := range allInstrs(f) {
+			ci := isSCCCall(i)
+			if ci == nil || !inLoop(ci) {
+				continue
+			}
+			outArg := ci.Call.Args[2]
+			// only temporaries created with reflect.New matter (Index/Field of the real output are distinct per iteration by construction)
+			var newCall *ssa.Call
+			derivesAll(outArg, func(x ssa.Value) bool {
+				if cc, ok := x.(*ssa.Call); ok && calleeFullName(cc) == "reflect.New" {
+					newCall = cc
+					return true
+				}
+				return false
+			}, &flowOpts{through: map[string]bool{"(reflect.Value).Elem": true}})
+			if newCall == nil {
+				continue
+			}
+			n++
+			c.check(inLoop(newCall) && newCall.Block() == ci.Block() || newCall.Block().Dominates(ci.Block()) && inLoop(newCall), rule, relName(f)+"#temp", ci.Pos(),
+				"the temporary output is allocated in the same iteration as the descent", "a temporary output location allocated outside the loop is reused across iterations (memo entries would point at a location that is overwritten)")
+		}
+	}
+	if n == 0 {
+		c.bad(rule, "copier", cp.hMap.Pos(), "no per-iteration temporaries found (map entries)")
 	}
 }
